@@ -57,10 +57,13 @@ type evSpec struct {
 }
 
 type scenario struct {
-	Channels   []string  `json:"channels"`
-	Filters    []filter  `json:"filters"`
-	Events     []evSpec  `json:"events"`
-	Concurrent bool      `json:"concurrent"`
+	Channels   []string `json:"channels"`
+	Filters    []filter `json:"filters"`
+	Events     []evSpec `json:"events"`
+	Concurrent bool     `json:"concurrent"`
+	// Stall: this channel takes six seconds over its first event; the sender goes on sending meanwhile (or waits -
+	// either way the channel must get its events in sending order)
+	Stall string `json:"stalling_channel,omitempty"`
 }
 
 func mkScenario(seed int64, idx int) scenario {
@@ -96,6 +99,10 @@ func mkScenario(seed int64, idx int) scenario {
 		sc.Filters = append(sc.Filters, f)
 	}
 	sc.Concurrent = r.Chance(1, 4)
+	if idx%160 == 7 {
+		sc.Concurrent = false
+		sc.Stall = sc.Channels[0]
+	}
 	field := func() (string, string) {
 		switch r.Intn(10) {
 		case 0:
@@ -140,6 +147,10 @@ func config(sc scenario) string {
 	var b strings.Builder
 	b.WriteString("[listener]\ntype=\"lab\"\n\n")
 	for _, c := range sc.Channels {
+		if c == sc.Stall {
+			fmt.Fprintf(&b, "[channel.%s]\ntype=\"lab-capture\"\nid=%q\nstall_first_ms=6000\n\n", c, c)
+			continue
+		}
 		fmt.Fprintf(&b, "[channel.%s]\ntype=\"lab-capture\"\nid=%q\n\n", c, c)
 	}
 	q := func(xs []string) string {
@@ -286,7 +297,7 @@ func runOnce(sc scenario, variant string) (scnObs, error) {
 					sp.Fields["token"] = lab.EmitTV{T: e.TokT, V: e.TokV}
 				}
 				jb, _ := json.Marshal(sp)
-				cc.SetDeadline(time.Now().Add(5 * time.Second))
+				cc.SetDeadline(time.Now().Add(15 * time.Second))
 				if _, err := cc.Write(append(jb, '\n')); err != nil {
 					return
 				}
